@@ -22,6 +22,8 @@ EXTRA = {
     # round 2
     "C08-5": ["C06"],  # CMTF matrix part built after normalisation: also changes the pair whose error was reported
     "C08-6": ["C14"],  # unsorted fixed_factors (same edit as C14-2 / C14-4)
+    # round 3
+    "C19-6": ["C15"],  # CP_PLSR.transform writes into a 1-D target vector through a reshape view
 }
 ONLY = {}
 
